@@ -273,10 +273,18 @@ func v14hSymObject(zctx *zed.Context, name string, n, kmax int, base byte, desc 
 
 // v14hSetup creates the model storage and a real pool handle on it.
 func v14hSetup(ctx context.Context, desc bool) (*v14hEngine, *lake.Pool, order.SortKey, bool) {
+	return v14hSetupStride(ctx, desc, 0)
+}
+
+// v14hSetupStride: seekStride 0 is the default (an object of a few values is
+// one ZNG frame); 1 makes data.Writer end the stream after every value with a
+// non-null key, so an object is a sequence of frames and the scanner delivers
+// it as several batches whose buffers are recycled.
+func v14hSetupStride(ctx context.Context, desc bool, seekStride int) (*v14hEngine, *lake.Pool, order.SortKey, bool) {
 	eng := &v14hEngine{files: map[string][]byte{}}
 	sortKey := order.NewSortKey(order.Which(desc), field.Path{"k"})
 	root := &storage.URI{Scheme: "file", Path: "/lake"}
-	config := pools.NewConfig("p", order.SortKeys{sortKey}, 0, 0)
+	config := pools.NewConfig("p", order.SortKeys{sortKey}, 0, seekStride)
 	if err := lake.CreatePool(ctx, eng, zap.NewNop(), root, config); err != nil {
 		verif.Assert(false, "setup-create-pool")
 		return nil, nil, sortKey, false
@@ -417,7 +425,12 @@ func v14hPartitionScanRun(n, kmax, sched, pat int, desc bool) {
 		specB, valsB = v14hSymObject(zctx, "B", n, kmax, 0x20, desc)
 	}
 
-	eng, pool, sortKey, ok := v14hSetup(ctx, desc)
+	stride := 0
+	if sched > 0 {
+		// a frame (a batch, a recycled buffer) per value
+		stride = 1
+	}
+	eng, pool, sortKey, ok := v14hSetupStride(ctx, desc, stride)
 	if !ok {
 		return
 	}
